@@ -13,6 +13,7 @@
 import PdshVerif.Exec.Lemmas
 import PdshVerif.Exec.EndToEnd
 import PdshVerif.Exec.Ssh
+import PdshVerif.Exec.XrcmdSpec
 import PdshVerif.Opt.RcmdBridge
 import PdshVerif.Props.C18
 import PdshVerif.Opt.RcmdLemmas
@@ -605,6 +606,73 @@ theorem rsh_end_to_end (cfg : Cfg) (words : List Word) (targets : List Str) (ls 
   refine ⟨hi', ?_⟩
   rw [hg]
   exact (wire_request_exact port cfg.luser _ (joinCmd argv) hlu hru (joinCmd_nul_free argv hargv)).1
+
+/-! ## the rsh handshake: privileged-port loop, stderr back-connection, request (src/modules/xrcmd.c) -/
+
+/-- THE HANDSHAKE MEETS ITS SPECIFICATION IN EVERY WORLD (Exec/XrcmdSpec.lean `meets`): whichever reserved
+    ports are busy, however often and with whichever error connect() fails, whether or not sleep() is
+    interrupted, whatever xpoll()/accept() report about the back-connection and whatever the peer answers --
+    no byte is written before a connect() has succeeded, and a call that returns a socket has written exactly
+    port NUL luser NUL ruser NUL cmd NUL, `port` being the number of a socket of this call that IS LISTENING
+    when the first byte goes out (empty when no stderr channel was asked for). -/
+theorem xrcmd_meets_spec (w : Xrcmd.World) (errCh : Bool) (luser ruser cmd : List Char) :
+    Xrcmd.Spec.meets errCh luser ruser cmd (Xrcmd.xrcmd w errCh luser ruser cmd).ok
+      (Xrcmd.xrcmd w errCh luser ruser cmd).evs = true :=
+  Xrcmd.Spec.xrcmd_meets w errCh luser ruser cmd
+
+/-- ... in terms of what the peer parses: with the stderr channel the first field is the decimal number of the
+    port rresvport() bound when started DIRECTLY BELOW the port of the connected socket -- skipping busy ports
+    is rresvport's business, the number announced is the one it returned -- and that socket was bound and put
+    into the listening state immediately before the number was written -/
+theorem xrcmd_request_stderr (w : Xrcmd.World) (luser ruser cmd : List Char)
+    (hl : nul ∉ luser) (hr : nul ∉ ruser) (hc : nul ∉ cmd)
+    (h : (Xrcmd.xrcmd w true luser ruser cmd).ok = true) :
+    ∃ p p2 pre post,
+      (Xrcmd.connectLoop w w.conns (Xrcmd.IPPORT_RESERVED - 1) 1 []).1 = some p ∧ w.resv (p - 1) = some p2 ∧
+      (Xrcmd.xrcmd w true luser ruser cmd).evs =
+        pre ++ [Xrcmd.Ev.bind p2, Xrcmd.Ev.listen p2, Xrcmd.Ev.write (Nat.toDigits 10 p2 ++ [nul])] ++ post ∧
+      (∀ e ∈ pre, e.isWrite = false) ∧
+      parseRequest (Xrcmd.writesOf (Xrcmd.xrcmd w true luser ruser cmd).evs).flatten =
+        some (Nat.toDigits 10 p2, luser, ruser, cmd) := by
+  obtain ⟨p, p2, src, pre, hloop, hnw, hres, _, _, _, _, he⟩ := Xrcmd.xrcmd_ok_stderr w luser ruser cmd h
+  refine ⟨p, p2, pre, [Xrcmd.Ev.accept src, Xrcmd.Ev.close p2, Xrcmd.Ev.write (luser ++ [nul]),
+    Xrcmd.Ev.write (ruser ++ [nul]), Xrcmd.Ev.write (cmd ++ [nul])], by rw [hloop], hres, ?_, hnw, ?_⟩
+  · rw [he]; simp [List.append_assoc]
+  · rw [he, Xrcmd.writesOf_append, Xrcmd.writesOf_no_write pre hnw]
+    simp only [Xrcmd.writesOf, List.filterMap_cons, List.filterMap_nil, List.nil_append]
+    rw [Xrcmd.Spec.writes_flatten_stderr]
+    exact rshRequest_roundtrip (some p2) luser ruser cmd hl hr hc
+
+/-- without the stderr channel (fd2p == NULL) the port field is empty -/
+theorem xrcmd_request_plain (w : Xrcmd.World) (luser ruser cmd : List Char)
+    (hl : nul ∉ luser) (hr : nul ∉ ruser) (hc : nul ∉ cmd)
+    (h : (Xrcmd.xrcmd w false luser ruser cmd).ok = true) :
+    parseRequest (Xrcmd.writesOf (Xrcmd.xrcmd w false luser ruser cmd).evs).flatten =
+      some ([], luser, ruser, cmd) := by
+  obtain ⟨p, pre, _, hnw, he⟩ := Xrcmd.xrcmd_ok_plain w luser ruser cmd h
+  rw [he, Xrcmd.writesOf_append, Xrcmd.writesOf_no_write pre hnw]
+  simp only [Xrcmd.writesOf, List.filterMap_cons, List.filterMap_nil, List.nil_append]
+  rw [Xrcmd.Spec.writes_flatten_plain]
+  exact rshRequest_roundtrip none luser ruser cmd hl hr hc
+
+/-- a call that never got a connection fails and has written nothing: no user name and no command text
+    reaches anybody -/
+theorem xrcmd_unconnected_silent (w : Xrcmd.World) (errCh : Bool) (luser ruser cmd : List Char)
+    (h : (Xrcmd.connectLoop w w.conns (Xrcmd.IPPORT_RESERVED - 1) 1 []).1 = none) :
+    (Xrcmd.xrcmd w errCh luser ruser cmd).ok = false ∧
+    Xrcmd.writesOf (Xrcmd.xrcmd w errCh luser ruser cmd).evs = [] :=
+  Xrcmd.xrcmd_unconnected w errCh luser ruser cmd h
+
+/-- non-vacuity, and the situation of a busy port: 1023 answers EADDRINUSE, 1022 connects, 1021 is taken by
+    somebody else, so the stderr socket is 1020 -- and 1020 is what the request says -/
+example :
+    let w : Xrcmd.World := ⟨fun s => if s = 1021 then some 1020 else some s, [.addrInUse, .ok], true, true,
+                            some 1000, some [nul]⟩
+    (Xrcmd.xrcmd w true "me".toList "you".toList "id".toList).ok = true ∧
+    Xrcmd.mergeWrites (Xrcmd.xrcmd w true "me".toList "you".toList "id".toList).evs =
+      [.bind 1023, .connect 1023 .addrInUse, .close 1023, .bind 1022, .connect 1022 .ok, .bind 1020, .listen 1020,
+       .write "1020\x00".toList, .accept 1000, .close 1020, .write "me\x00you\x00id\x00".toList] := by
+  decide
 
 /-! ## from the command line: option precedence (C18's table), target assembly and exclusion (C10, C02) -/
 
